@@ -292,7 +292,21 @@ def _model_dict(m):
     return dict(list(model.items())[:60])
 
 
-def _check(obl, timeout_ms, extra=()):
+def _check(obl, timeout_ms, extra=(), fresh=False):
+    """``fresh``: the query is translated into a z3 context of its own first.  z3's search depends on the AST ids of the context,
+    i.e. on everything the process built before (the checks of the same property that ran earlier): the same counter-model query was
+    answered in 4 s when its check ran alone and timed out after two other checks.  A context per query makes the answer a function
+    of the query."""
+    if fresh:
+        ctx = z3.Context()
+        s = z3.Solver(ctx=ctx)
+        s.set("timeout", int(timeout_ms))
+        for h in obl.hyps:
+            s.add(h.translate(ctx))
+        s.add(z3.Not(obl.goal).translate(ctx))
+        for e in extra:
+            s.add(e.translate(ctx))
+        return s.check(), s
     s = _solver(timeout_ms)
     for h in obl.hyps:
         s.add(h)
@@ -323,7 +337,8 @@ def discharge(obl: Obligation, timeout_ms=30000):
     ints = _int_consts(obl.hyps + [obl.goal])
     for b in (1, 2, 3):
         extra = [z3.And(v >= -b, v <= b) for v in ints]
-        r2, s2 = _check(obl, 4000, extra)
+        # (z3 budgets are wall-clock: under a fully loaded machine 4 s for the widest box turned refutations into time-outs)
+        r2, s2 = _check(obl, min(timeout_ms, 4000 if b < 3 else 12000), extra, fresh=True)
         if r2 == z3.sat:
             return "refuted", ms(), {"model": _model_dict(s2.model()),
                                      "solver_output": f"sat (bounded counter-model search: all integer constants within [-{b}, {b}])"}
